@@ -28,7 +28,9 @@ CLAIMED = {
               'between XZ writer and reader (31 rows); CHECKSUM-FEED-W: every byte handed to the block encoder is fed to the '
               'running check; FINALIZE-RESET: closing a unit resets every per-unit accumulator before the next unit; '
               'COUNTER-TRUTH: byte counters advance by the count the sink reported; FORMULA-TWIN: shared size formulas of '
-              'writer and reader are the same expression.',
+              'writer and reader are the same expression; FILTER-ARG-PURE: filter constructor arguments depend on the header-visible '
+              'property only; STAGING-APPEND: the unit staging buffer is only appended to or taken whole; VALIDATE-PARITY and '
+              'FORMAT-OVERRIDES (see C19).',
               'field-order/width agreement of headers and trailers (LAYOUT-SEQ not built), CRC values, index arithmetic, LZIP '
               'dictionary byte rounding.'),
     'C03': _c('static: ordering (reachability) rule + finite flag model',
@@ -44,17 +46,25 @@ CLAIMED = {
               'reaches the Err return or an error field on every path (exceptions are checked path conditions). GUARD-COMPARE '
               '(every parsed integrity field / stored CRC decides an Err), CHECKSUM-FEED, PER-UNIT-RESET (per-block/member '
               'accumulators re-initialised), WORKER-DRAIN (the MT reader hands out nothing after an error was stored), '
-              'READER-STATE, FINALIZE-RESET.',
+              'READER-STATE, FINALIZE-RESET, SCAN-TO-ZERO (a backward member scan may only succeed at position 0); GUARD-COMPARE also '
+              'requires comparisons with measured quantities to be two-sided.',
               'that CRC/SHA detect a given corruption, LZMA-level structural errors inside the range-coded payload.'),
     'C05': _c('static: error-propagation taint + I/O count classification at every Read::read / Write::write site',
               'ERR-SWALLOW (whole crate) and IO-COUNT (W1 dropped write count, W2 transforming writer returning a partial count, '
               'R1 read count compared for equality with a required length), COUNTER-TRUTH (counters advance by the reported '
-              'count), EOF-MEANS-END (a 0-byte read is a clean end only where the format allows one).',
+              'count), EOF-MEANS-END (a 0-byte read is a clean end only where the format allows one), INTERRUPT-LATCH / '
+              'INTERRUPT-RETRY (Interrupted is never latched, never returned after bytes were handed out, and is retried in '
+              'place where the decoder reads into its own buffer), FILL-LOOP (a count compared with a required length comes from '
+              'a fill loop), SINK-ERR-STICKY (see C09).',
               'that truncation is *detected* by the end-of-stream consistency checks (value dependent).'),
     'C06': _c('static: interval analysis with guard refinement across calls/fields; call-graph SCCs',
               'ALLOC-TAINT (every decoder-reachable allocation size bounded), INT-OVF (overflow asserts in loop-free scalar '
               'functions unreachable), INT-OVF-INPUT (arithmetic directly on just-read header integers), NO-RECURSION (no '
-              'self-recursion driven by input), READER-STATE (a chunk that needs props/dict reset and lacks it is an Err).',
+              'self-recursion driven by input), READER-STATE (a chunk that needs props/dict reset and lacks it is an Err), BOUNDS '
+              '(all 112 constant-length index checks in decoder-reachable code proven in range: intervals with loop-exit edge '
+              'bounds, range iterators, and an inductive invariant for the coder state), POS-WRAP (32-bit position arithmetic of '
+              'the BCJ filters wraps), READ-ERR-LATCH (a reader owning LZ decoder state is never run again after an Err), '
+              'WINDOW-ALIGN (window never empty).',
               'index bounds inside the LZ window and BCJ2 state machine, loop termination, checked BCJ address arithmetic on data '
               'bytes (inside loops).'),
     'C07': _c('static: dominance rule on impl Read::read + I/O count classification',
@@ -67,20 +77,24 @@ CLAIMED = {
     'C08': _c('static: ordering/guard rules on the four MT pipelines + control-byte value sets',
               'SEQ-ORDER (hand-out only on seq == next, reorder map keyed by seq, one increment per hand-out/dispatch), CTRL-SETS '
               '(MT cutter cuts exactly at the ST reader\'s dictionary-reset values, same classes and header lengths), '
-              'FRESH-CODEC, MT-TERMINATOR, ERR-SWALLOW-MT, WORKER-DRAIN.',
+              'FRESH-CODEC, MT-TERMINATOR, ERR-SWALLOW-MT, WORKER-DRAIN, STAGING-APPEND.',
               'byte equality of outputs (needs C01), behaviour under interleavings beyond the ordering discipline.'),
     'C09': _c('static: all-paths rule on worker CFGs + dominance of error checks',
               'WORKER-NOTIFY (every path from a successful steal to an exit posts to the result channel), ERRCHK-BEFORE-BLOCK '
               '(error store checked in the loop before every blocking recv), ERR-STICKY (a stored error is never cleared and is '
-              'returned by every later call), EOF-MEANS-END (source EOF without the terminator is an error), ERR-SWALLOW-MT.',
+              'returned by every later call), EOF-MEANS-END (source EOF without the terminator is an error), ERR-SWALLOW-MT, '
+              'SINK-ERR-STICKY (a failed sink write of a dequeued unit moves the writer to its error state), PANIC-WAKE (a worker '
+              'that unwinds while holding a unit posts to the result channel through a drop guard).',
               'progress of back-pressure loops, value relations between sequence counters.'),
     'C10': _c('static: lock-set analysis, condvar predicate discipline, call-graph effects',
               'CV-LOCK, CV-NOTIFY (every predicate write is followed by a notify on all paths), LOCK-SCOPE, DROP-CLOSE, SPAWN-BOUND '
-              'for the work queue and the four MT types.',
+              'for the work queue and the four MT types; PANIC-WAKE.',
               'termination of the codec work a worker does on one unit; std primitives behave as modelled.'),
     'C12': _c('static: contradiction rule by value-set evaluation + control dependence',
-              'BYTE-CONTRA (no success exit dead by contradictory byte tests), MULTISTREAM-GUARD, STREAM-RESET, PER-UNIT-RESET.',
-              'alignment accounting across streams, LZIP member loop, MT backward scan arithmetic.'),
+              'BYTE-CONTRA (no success exit dead by contradictory byte tests), MULTISTREAM-GUARD, STREAM-RESET (padding % 4 on both '
+              'the next-stream and the end-of-input exit; everything the first-stream initialiser stores is stored again per '
+              'stream), PER-UNIT-RESET, FILL-LOOP, SCAN-TO-ZERO.',
+              'alignment accounting across streams, arithmetic of the MT backward scan beyond its exit discipline.'),
     'C13': _c('static: call-graph effect analysis + data-flow from scheduling sources',
               'DET-EFFECT (no nondeterminism source / uninitialised memory reachable from the writers), SCHED-FLOW (no value '
               'derived from worker timing, queue lengths or progress counters reaches a cut decision or an emitted byte; helper '
@@ -117,7 +131,9 @@ CLAIMED = {
               'OPT-TAINT: every arithmetic assert fed by a public option value in the writer-constructor call tree is proven '
               'unreachable or reported (one finding per function); the properties byte fits u8. OPT-VALIDATE: no writer '
               'constructor / header encoder lost a validation exit (census); OPT-ALLOC: no allocation in the constructor call tree '
-              'is sized by an unclamped 64-bit option; OPT-CLAMP; FORMULA-TWIN.',
+              'is sized by an unclamped 64-bit option; VALIDATE-PARITY: the XZ writer rejects what its reader rejects (BCJ offset '
+              'alignment table equal on both sides, delta distance 1..=256); FORMAT-OVERRIDES: the LZIP writer overwrites lc/lp/pb '
+              'and the preset dictionary with the format constants; OPT-CLAMP; FORMULA-TWIN.',
               'decodability of what in-range options produce (C01/C02); run-time state arithmetic inside encode loops.'),
 }
 
